@@ -213,7 +213,9 @@ func synth(rng *rand.Rand, rt Route, mode Mode) RawCall {
 	frac := func() int { return 1 + rng.Intn(999) }
 	switch mode {
 	case ModeC15:
-		switch rng.Intn(10) {
+		switch rng.Intn(12) {
+		case 10, 11:
+			c.Fault = sampleMangle(rng, []string{fmt.Sprintf("query#%d", rng.Intn(8)), fmt.Sprintf("header#%d", rng.Intn(4)), fmt.Sprintf("path:%d", rng.Intn(6))})
 		case 0, 1:
 			c.Fault = &Fault{Kind: "cut-req", Frac: frac()}
 		case 2:
